@@ -195,7 +195,7 @@ pub fn run(ctx: &mut Ctx) {
     ctx.floor("class-stability.judged", 100_000);
     ctx.floor("defrag.histories", 1_000);
 
-    let n = ctx.tier.pick(2_500, 25_000);
+    let n = ctx.tier.pick(10000, 100000);
 
     ctx.family("records", n, |ctx, case: &mut Case| {
         let r = &mut case.rng;
@@ -410,7 +410,7 @@ pub fn run(ctx: &mut Ctx) {
 
     // defragmenter provenance: reuse the C07 lock-step runner (it checks that slices of unbuffered
     // results lie in the caller's record and slices of defragmented results in the hooked buffer)
-    let nh = ctx.tier.pick(3_000, 30_000);
+    let nh = ctx.tier.pick(12000, 120000);
     ctx.family("defragmenter-provenance", nh, |ctx, case: &mut Case| {
         let r = &mut case.rng;
         let msgs = gen::msg_list(r, gen::SMALL, 0x16);
